@@ -92,8 +92,8 @@ SPECS["C10"] = {
     "default_build": "main",
     "plan": plan_c10,
     "exhaustive_enums": ["floats-9-0", "floats-6-1", "floats-2-2", "sparse-12", "sparse-17"],
-    "rule": ("enumerated: every double with an odd significand part of at most 11 bits (quick) / 17 bits (thorough) in the binades below 1e-200 and above 1e200 at "
-             "every precision 0..40 in the Default format (30 M / 1.9 G conversions); generated: "
+    "rule": ("enumerated: every double with an odd significand part of at most 12 bits (quick) / 17 bits (thorough) in the binades below 1e-200 and above 1e200 at "
+             "every precision 0..40 in the Default format (60 M / 1.9 G conversions); generated: "
              "case = (value, precision 0..40, format Default/Fixed/SemiFixed, unit width, stream prefix); values: doubles from 14 classes (uniform bits, "
              "modest binades, short decimals m*10^e, everyday decimals, exact binary ties, integers, power-of-ten / power-of-two neighbourhoods, "
              "subnormals, sparse mantissas, specials, nine-runs), floats (uniform, short decimals, ties, specials), integers of 8/16/32/64 bits "
@@ -397,18 +397,20 @@ SPECS["C19"] = {
 # ---------------------------------------------------------------------------------------------- C13
 def plan_c13(tier, seed):
     if tier == "quick":
-        return checks("main", 8, 6000)
-    return checks("main", 13, 120000) + checks("nohook_avx2", 3, 80000)
+        return checks("main", 8, 6000) + shards("plain", "marker-hunt-10", 16)
+    return checks("main", 13, 120000) + checks("nohook_avx2", 3, 80000) + shards("plain", "marker-hunt-1000", 16, timeout=7000)
 
 
 SPECS["C13"] = {
     "builds": {
         "main": Build("main", "harness/c13_harray.cpp"),
         "nohook_avx2": Build("nohook_avx2", "harness/c13_harray.cpp", hook=False, simd="avx2"),
+        "plain": Build("plain", "harness/c13_harray.cpp", san="plain", hook=False),
     },
     "default_build": "main",
     "plan": plan_c13,
-    "rule": ("case = entropy bytes -> program of 1-80 operations over a pool of 2-3 tables of HArray<String,SizeT>, HArray<String,String>, HArray<String,Value> or "
+    "rule": ("marker hunt: 160 M (quick) / 16 G (thorough) key stems of 14-24 symbols, each standing for the 256 keys that differ in the middle symbol (solved for, then confirmed by hashing the completed key), are searched for a live key whose hash equals the removed-slot marker 0 "
+             "(any such key is put through insert / lookup / growth / copy / Compress against the model); generated: case = entropy bytes -> program of 1-80 operations over a pool of 2-3 tables of HArray<String,SizeT>, HArray<String,String>, HArray<String,Value> or "
              "HList<String>: all Insert / Get / [] overloads, lookups by key / index / hash, GetKey, GetItem, GetKeyIndex, Has, Remove (3) / RemoveIndex, Rename (2), "
              "+= copy and move, Reserve / Resize / Expect / Compress / Clear / Reset, Sort, copy/move construction and assignment; keys from small alphabets, "
              "the empty key, embedded NULs and brute-forced collision sets (equal low 8 / 4 / 3 hash bits, zero low bits, identical 32-bit hashes) plus random bytes; "
@@ -643,3 +645,43 @@ SPECS["C16"] = {
     "level_note": "the ledger relies on every allocation going through Memory::Allocate/Deallocate (true for the whole library: it is STL-free)",
     "assumptions": [],
 }
+
+
+# ---------------------------------------------------------------------------------------------- coverage-guided mode
+# The entropy decoders of these harnesses are also driven by libFuzzer (harness/common/pbt.hpp, PBT_MAIN / from_fuzz): same
+# run(), same oracle, same allocation ledger; coverage feedback from the library steers the bytes. pid: (source, defines,
+# (quick workers, seconds), (thorough workers, seconds), max_len)
+GFUZZ = {
+    "C02": ("harness/c02_template.cpp", [], (3, 20), (6, 600), 420),
+    "C03": ("harness/c03_escape.cpp", [], (2, 15), (4, 300), 80),
+    "C04": ("harness/c04_expr.cpp", [], (3, 15), (6, 600), 160),
+    "C06": ("harness/c06_json.cpp", [], (3, 15), (6, 600), 300),
+    "C07": ("harness/c06_json.cpp", ["VERIF_C07"], (3, 15), (6, 400), 300),
+    "C08": ("harness/c08_stringify.cpp", [], (3, 15), (6, 600), 320),
+    "C09": ("harness/c09_strtonum.cpp", [], (4, 15), (8, 900), 400),
+    "C10": ("harness/c10_numtostr.cpp", [], (3, 15), (6, 900), 16),
+    "C11": ("harness/c11_roundtrip.cpp", [], (3, 15), (6, 900), 16),
+    "C12": ("harness/c12_value.cpp", [], (4, 20), (8, 900), 420),
+    "C13": ("harness/c13_harray.cpp", [], (4, 20), (8, 900), 440),
+    "C14": ("harness/c14_sequences.cpp", [], (4, 15), (8, 600), 320),
+    "C15": ("harness/c15_order.cpp", [], (2, 15), (4, 400), 220),
+    "C16": ("harness/c16_lifetimes.cpp", [], (2, 15), (4, 400), 320),
+    "C18": ("harness/c18_groupby.cpp", [], (2, 15), (4, 400), 220),
+    "C19": ("harness/c19_bigint.cpp", [], (3, 15), (6, 600), 320),
+}
+
+
+def _with_gfuzz(base, q, t, ml):
+    def plan(tier, seed):
+        w, secs = q if tier == "quick" else t
+        return base(tier, seed) + fuzz("fuzzg", w, 2000000000, None, None, max_len=ml, max_time=secs)
+    return plan
+
+
+for _pid, (_src, _defs, _q, _t, _ml) in GFUZZ.items():
+    _s = SPECS[_pid]
+    _s["builds"]["fuzzg"] = Build("fuzzg", _src, san="fuzz", defs=["VERIF_FUZZ_GENERIC"] + _defs)
+    _s["plan"] = _with_gfuzz(_s["plan"], _q, _t, _ml)
+    _s["engine"] += " + libFuzzer (coverage-guided, same case decoder and oracle)"
+    _s["technique"] += "; plus coverage-guided fuzzing (libFuzzer) of the same case decoder with the same oracle inside the target"
+    _s["rule"] += ("; the coverage-guided runs decode libFuzzer's bytes with the same decoder (selector byte(s), then entropy) and count by the same rule")
